@@ -376,7 +376,18 @@ func main() {
 	}
 	if left := int(time.Until(deadlineAll).Seconds()); len(capped) > 0 && left >= 8 {
 		rounds := (len(capped) + par - 1) / par
-		if per := left / rounds; per >= 8 {
+		per := left / rounds
+		if per < 8 {
+			// too many cut-off shards for everybody to get a useful share: the time that is left
+			// goes to as many of them (in shard order) as can have 8 s each
+			n := par * (left / 8)
+			if n < len(capped) {
+				capped = capped[:n]
+			}
+			rounds = (len(capped) + par - 1) / par
+			per = left / rounds
+		}
+		if per >= 8 {
 			jobsLeft = 0
 			runJobs(capped, per)
 		}
